@@ -37,7 +37,7 @@ fn nfs_file() -> &'static std::path::Path {
     use std::sync::OnceLock;
     static FILE: OnceLock<std::path::PathBuf> = OnceLock::new();
     FILE.get_or_init(|| {
-        let dir = std::path::Path::new(crate::engine::VERIF_ROOT).join("harness/target/vp-tmp");
+        let dir = crate::engine::verif_root().join("harness/target/vp-tmp");
         let _ = std::fs::create_dir_all(&dir);
         let path = dir.join(format!("c18-trusted-{}", std::process::id()));
         vouched_time::nfs_voucher::add_trusted_path(path.clone()).expect("can register a trusted path on the harness's own file system");
